@@ -36,24 +36,31 @@ def rewrite_imports(src_rel, mapping):
     return gen
 
 
+import threading as _threading
+_INSTR_LOCK = _threading.Lock()
+
+
 def instrument(files, skip="", also=None, swap="", selonly=False):
     """generate() callback for the E4 pause-point explorer: overlay copies of <files> (repo-relative, read from the current
     working tree) with a pause point before every statement and "sync" swapped for the lock-counting shim (tools_instr)."""
     def gen(scratch, repo):
         import os, subprocess
         tool = os.path.join(scratch, "instr_tool")
-        if not os.path.exists(tool):
-            env = dict(os.environ, GOPROXY="off", GOSUMDB="off", GOTOOLCHAIN="local", GOFLAGS="")
-            r = subprocess.run(["go", "build", "-o", tool, "."], cwd=os.path.join(os.path.dirname(os.path.abspath(__file__)), "tools_instr"),
-                               env=env, capture_output=True, text=True)
-            if r.returncode != 0:
-                raise SystemExit("HARNESS-ERROR: cannot build tools_instr: " + r.stderr)
+        with _INSTR_LOCK:  # parts of one check are built by several threads: one of them builds the tool, the others wait
+          if not os.path.exists(tool):
+              env = dict(os.environ, GOPROXY="off", GOSUMDB="off", GOTOOLCHAIN="local", GOFLAGS="")
+              r = subprocess.run(["go", "build", "-o", tool, "."], cwd=os.path.join(os.path.dirname(os.path.abspath(__file__)), "tools_instr"),
+                                 env=env, capture_output=True, text=True)
+              if r.returncode != 0:
+                  raise SystemExit("HARNESS-ERROR: cannot build tools_instr: " + r.stderr)
         out = {}
+        import tempfile
+        sub = tempfile.mkdtemp(prefix="instr_", dir=scratch)  # one directory per call: no two builds write the same copy
         for rel in files:
             src = os.path.join(repo, rel)
             if not os.path.exists(src):
                 raise SystemExit("HARNESS-ERROR: %s not found" % rel)
-            dst = os.path.join(scratch, ("instrsel_" if selonly else "instr_") + (__import__("hashlib").md5(repr((skip, swap)).encode()).hexdigest()[:6] + "_") + rel.replace("/", "_"))  # one copy per flavour: the parts of a check share the scratch directory
+            dst = os.path.join(sub, ("instrsel_" if selonly else "instr_") + (__import__("hashlib").md5(repr((skip, swap)).encode()).hexdigest()[:6] + "_") + rel.replace("/", "_"))  # one copy per flavour: the parts of a check share the scratch directory
             r = subprocess.run([tool, "-out", dst, "-skip", skip, "-swap", (swap.get(rel, "") if isinstance(swap, dict) else swap)] + (["-selonly"] if selonly else []) + [src], capture_output=True, text=True)
             if r.returncode != 0:
                 raise SystemExit("HARNESS-ERROR: instrumenting %s failed: %s" % (rel, r.stderr))
